@@ -566,3 +566,148 @@ theorem sanitize_all_int_ok {ndim : Nat} {items : List Item} (hlen : items.lengt
   simp [sanitize, countEllipsis_all_int items hall, hlen, hnone, hmap]
 
 end Ndcube
+
+namespace Ndcube
+
+theorem numDropped_le (axes : List AxisRes) : numDropped axes ≤ axes.length := by
+  simp only [numDropped]; exact List.length_filter_le _ _
+
+theorem numDropped_cons (a : AxisRes) (as : List AxisRes) :
+    numDropped (a :: as) = (if a.isKept then 0 else 1) + numDropped as := by
+  cases h : a.isKept <;> simp [numDropped, h] <;> omega
+
+/-- Result axis `ca - (#axes dropped in front of ca)` is a view of source axis `ca`, whenever
+source axis `ca` survives. -/
+theorem keptFrom_get (k ca : Nat) (axes : List AxisRes) (h : ca < axes.length)
+    (hk : (axes.getD ca (.dropped 0)).isKept = true) :
+    (keptFrom k axes)[ca - numDropped (axes.take ca)]? = some (k + ca) := by
+  induction axes generalizing k ca with
+  | nil => simp at h
+  | cons a as ih =>
+    cases ca with
+    | zero =>
+      simp only [List.getD_cons_zero] at hk
+      simp [keptFrom, hk, numDropped]
+    | succ c =>
+      simp only [List.length_cons] at h
+      simp only [List.getD_cons_succ] at hk
+      have hle : numDropped (as.take c) ≤ c := by
+        have := numDropped_le (as.take c)
+        simp only [List.length_take] at this; omega
+      have := ih (k + 1) c (by omega) hk
+      simp only [List.take_succ_cons, numDropped_cons]
+      cases ha : a.isKept
+      · simp only [keptFrom, ha, Bool.false_eq_true, if_false]
+        have h1 : c + 1 - (1 + numDropped (as.take c)) = c - numDropped (as.take c) := by omega
+        rw [h1, this]; congr 1; omega
+      · simp only [keptFrom, ha, if_true]
+        have h1 : c + 1 - (0 + numDropped (as.take c)) = (c - numDropped (as.take c)) + 1 := by omega
+        rw [h1, List.getElem?_cons_succ, this]; congr 1; omega
+
+/-- Integer items are exactly the dropped axes. -/
+theorem applyAxes_isInt {shape : List Nat} {its : List Item} {axes : List AxisRes}
+    (h : applyAxes shape its = .ok axes) :
+    axes.map (fun a => !a.isKept) = its.map Item.isInt := by
+  induction shape generalizing its axes with
+  | nil =>
+    cases its with
+    | nil => simp [applyAxes] at h; cases h; rfl
+    | cons _ _ => simp [applyAxes] at h
+  | cons n ns ih =>
+    cases its with
+    | nil => simp [applyAxes] at h
+    | cons it its =>
+      obtain ⟨a, rest, ha, hrest, rfl⟩ := applyAxes_cons h
+      simp only [List.map_cons, ih hrest]
+      congr 1
+      cases it with
+      | int i =>
+        simp only [applyAxis] at ha
+        split at ha
+        · cases ha; rfl
+        · cases ha
+      | slice s e st => simp only [applyAxis] at ha; cases ha; rfl
+      | ellipsis => simp [applyAxis] at ha
+      | none => simp [applyAxis] at ha
+
+theorem numDropped_eq_countInts {shape : List Nat} {its : List Item} {axes : List AxisRes}
+    (h : applyAxes shape its = .ok axes) (c : Nat) :
+    numDropped (axes.take c) = countInts (its.take c) := by
+  have := applyAxes_isInt h
+  have h2 : (axes.take c).map (fun a => !a.isKept) = (its.take c).map Item.isInt := by
+    rw [List.map_take, List.map_take, this]
+  simp only [numDropped, countInts]
+  rw [← List.countP_eq_length_filter, ← List.countP_eq_length_filter]
+  have e1 := List.countP_map (p := fun b : Bool => b) (f := fun a : AxisRes => !a.isKept) (l := axes.take c)
+  have e2 := List.countP_map (p := fun b : Bool => b) (f := Item.isInt) (l := its.take c)
+  simp only [Function.comp_def] at e1 e2
+  rw [← e1, ← e2, h2]
+
+end Ndcube
+
+namespace Ndcube
+
+theorem normalizeNegative_isInt {n : Nat} {it it' : Item} (h : normalizeNegative n it = .ok it') :
+    it'.isInt = it.isInt := by
+  cases it with
+  | int i =>
+    simp only [normalizeNegative] at h
+    split at h
+    · split at h
+      · cases h
+      · cases h; rfl
+    · cases h; rfl
+  | slice s e st => simp only [normalizeNegative] at h; cases h; rfl
+  | ellipsis => simp only [normalizeNegative] at h; cases h; rfl
+  | none => simp only [normalizeNegative] at h; cases h; rfl
+
+theorem normAxes_isInt {shape : List Nat} {its its' : List Item}
+    (h : normAxes shape its = .ok its') (hlen : its.length = shape.length) :
+    its'.map Item.isInt = its.map Item.isInt := by
+  induction shape generalizing its its' with
+  | nil =>
+    cases its with
+    | nil => simp [normAxes] at h; cases h; rfl
+    | cons _ _ => simp at hlen
+  | cons n ns ih =>
+    cases its with
+    | nil => simp at hlen
+    | cons it its =>
+      simp only [normAxes, bind, Except.bind] at h
+      split at h
+      · cases h
+      · rename_i a ha
+        split at h
+        · cases h
+        · rename_i rest hr
+          simp only [pure, Except.pure] at h
+          cases h
+          simp only [List.map_cons, normalizeNegative_isInt ha, ih hr (by simpa using hlen)]
+
+/-- Without Ellipsis and at full length, `sanitize` returns the items unchanged. -/
+theorem sanitize_full {ndim : Nat} {items its : List Item} (h : sanitize ndim items = .ok its)
+    (hlen : items.length = ndim) (hne : countEllipsis items = 0) : its = items := by
+  simp only [sanitize, hne] at h
+  split at h
+  · cases h
+  · split at h
+    · cases h
+    · simp only [if_false, Nat.zero_ne_one] at h
+      split at h
+      · cases h
+      · split at h
+        · cases h
+        · cases h; simp [hlen]
+
+theorem normItems_isInt {shape : List Nat} {items its : List Item}
+    (h : normItems shape items = .ok its) (hlen : items.length = shape.length)
+    (hne : countEllipsis items = 0) : its.map Item.isInt = items.map Item.isInt := by
+  simp only [normItems, bind, Except.bind] at h
+  split at h
+  · cases h
+  · rename_i san hs
+    have := sanitize_full hs hlen hne
+    subst this
+    exact normAxes_isInt h hlen
+
+end Ndcube
